@@ -472,7 +472,8 @@ func genCase(t *rapid.T) (Case, error) {
 		g.mark("decoy:subdir")
 	}
 	sort.Slice(c.Files, func(i, j int) bool { return c.Files[i].Name < c.Files[j].Name })
-	c.Compile = rapid.IntRange(0, 39).Draw(t, "compile") == 0
+	// sampled by content (rapid integer draws are biased towards small values)
+	c.Compile = ev.Hash(key(c))%uint64(ev.EnvInt("VERIF_C18_COMPILE_1_IN", 40)) == 0
 	for f := range g.feat {
 		c.Feat = append(c.Feat, f)
 	}
